@@ -609,13 +609,18 @@ impl SubscribeBuilder {
             // send subscribe to client
             log::trace!("Sending subscribe packet {packet:#?}");
 
-            let rx = shared.wait_response(packet.packet_id, AckType::Subscribe)?;
+            let id = packet.packet_id;
+            let rx = shared.wait_response(id, AckType::Subscribe)?;
             match shared.encode_packet(codec::Packet::Subscribe(packet)) {
                 Ok(()) => {
                     // wait ack from peer
                     rx.await.map_err(|_| SendPacketError::Disconnected).map(Ack::subscribe)
                 }
-                Err(err) => Err(SendPacketError::Encode(err)),
+                Err(err) => {
+                    // nothing was written, the peer will never acknowledge this id
+                    shared.cancel_response(id);
+                    Err(SendPacketError::Encode(err))
+                }
             }
         }
     }
@@ -694,13 +699,18 @@ impl UnsubscribeBuilder {
             // send unsubscribe to client
             log::trace!("Sending unsubscribe packet {packet:#?}");
 
-            let rx = shared.wait_response(packet.packet_id, AckType::Unsubscribe)?;
+            let id = packet.packet_id;
+            let rx = shared.wait_response(id, AckType::Unsubscribe)?;
             match shared.encode_packet(codec::Packet::Unsubscribe(packet)) {
                 Ok(()) => {
                     // wait ack from peer
                     rx.await.map_err(|_| SendPacketError::Disconnected).map(Ack::unsubscribe)
                 }
-                Err(err) => Err(SendPacketError::Encode(err)),
+                Err(err) => {
+                    // nothing was written, the peer will never acknowledge this id
+                    shared.cancel_response(id);
+                    Err(SendPacketError::Encode(err))
+                }
             }
         }
     }
